@@ -5,9 +5,9 @@
    [refs_in_range] is the part of tsk_table_collection_check_integrity(…,0) the functions
    rely on (every id column points inside its table or is NULL). *)
 From Coq Require Import List ZArith Bool.
-From Coq Require Import Permutation.
+From Coq Require Import Permutation Sorted.
 From TskVerif Require Import Base.Common C14.Model C14.Spec C14.Basics C14.SubsetMain
-     C14.SubsetCorollaries C14.SubsetIdentity C14.UnionProofs C14.InverseProofs C14.Examples.
+     C14.SubsetCorollaries C14.SubsetIdentity C14.UnionProofs C14.UnionRows C14.SortProofs C14.UnionFull C14.UnionRefs C14.InverseProofs C14.Examples.
 Import ListNotations.
 Open Scope Z_scope.
 
@@ -161,3 +161,74 @@ Theorem subset_union_inverse_nodes_partial :
     exists r', getz (t_nodes U) (cover_id A B u) = Ok r' /\
                n_flags r' = n_flags r /\ n_time r' = n_time r /\ n_md r' = n_md r.
 Proof. exact subset_union_inverse_nodes_lemma. Qed.
+
+(* (f, sites and mutations) with `other`'s mutations grouped by site (any table sorted by site:
+   lemma UnionRows.sorted_grouped) the result of union has exactly self's mutations plus other's
+   mutations on new nodes — node renumbered, derived state / time / metadata kept; the site id
+   and the parent are recomputed — and one site per position: every site row is one of self's or
+   a site of other carrying a mutation on a new node, and each of those positions is present. *)
+Theorem union_sites_mutations_exact : forall self other mapping check_shared add_populations u,
+  node_refs_ok other ->
+  grouped 0 (length (t_sites other)) (t_mutations other) = true ->
+  (forall m, In m (t_mutations other) -> in_range (zlen (t_nodes other)) (m_node m) = true) ->
+  union self other mapping check_shared add_populations = Ok u ->
+  Permutation (map mut_core (t_mutations u)) (map mut_core (union_raw_mutations self other mapping)) /\
+  StronglySorted (fun a b => s_pos a < s_pos b) (t_sites u) /\
+  (forall s, In s (t_sites u) -> In s (union_raw_sites self other mapping)) /\
+  (forall s, In s (union_raw_sites self other mapping) -> exists s', In s' (t_sites u) /\ s_pos s' = s_pos s).
+Proof. exact union_sites_mutations_lemma. Qed.
+
+(* the sorter used by union and by the Python wrapper of subset: a permutation in key order
+   (edges by (time[parent], parent, child, left), sites by position); nodes, individuals and
+   populations untouched; mutations keep node / derived state / time / metadata *)
+Theorem sort_is_sorted_permutation : forall t t', sort_tables t = Ok t' ->
+  t_nodes t' = t_nodes t /\ t_individuals t' = t_individuals t /\ t_populations t' = t_populations t /\
+  Permutation (t_edges t') (t_edges t) /\
+  Sorted (fun a b => edge_le (node_time (t_nodes t)) a b = true) (t_edges t') /\
+  Permutation (t_sites t') (t_sites t) /\ Sorted (fun a b => s_pos a <= s_pos b) (t_sites t') /\
+  Permutation (map mut_core (t_mutations t')) (map mut_core (t_mutations t)).
+Proof. exact sort_tables_spec. Qed.
+
+(* (f, nodes / individuals / populations, exactly) the rows union appends and the id columns of
+   the new nodes: populations of new nodes become new populations in first-use order
+   (add_populations) or keep their id and nothing is appended; an individual of a new node is
+   appended (first-use order) unless a shared node already identifies it with an individual of
+   self ([imap0], whose non-NULL entries come from a pair (j, mapping[j]) of shared nodes);
+   parents of appended individuals go through the same map (NULL when unknown). *)
+Theorem union_refs_exact : forall self other mapping check_shared addp u,
+  node_refs_ok other ->
+  union self other mapping check_shared addp = Ok u ->
+  exists imap0,
+    seed_individual_map self other 0 mapping mnull = Ok imap0 /\
+    (forall q, imap0 q <> NULL ->
+       exists j mj r rs, getz mapping j = Ok mj /\ mj <> NULL /\
+         getz (t_nodes other) j = Ok r /\ getz (t_nodes self) mj = Ok rs /\ n_ind r = q /\ imap0 q = n_ind rs) /\
+    let rows := union_new_rows other mapping in
+    let fi := first_uses (filter (fun i => imap0 i =? NULL) (map n_ind rows)) in
+    let fp := first_uses (map n_pop rows) in
+    let im := fun q => if imap0 q =? NULL
+                       then (if listed fi q then zlen (t_individuals self) + index_of q fi 0 else NULL)
+                       else imap0 q in
+    let pm := fun q => if listed fp q then zlen (t_populations self) + index_of q fp 0 else NULL in
+    t_nodes u = t_nodes self ++ map (new_node_exact addp pm im) rows /\
+    t_populations u = t_populations self ++ (if addp then rows_of (t_populations other) fp else []) /\
+    t_individuals u = t_individuals self ++
+       map (fun row => mkI (i_flags row) (i_loc row) (map (remap_ref im) (i_parents row)) (i_md row))
+           (rows_of (t_individuals other) fi).
+Proof. exact union_refs_exact_lemma. Qed.
+
+(* what "canonical form" means in the shared-portion check of union (and in the inverse law):
+   canonicalise = subset on all nodes, then edges and sites sorted by their keys, mutations and
+   individuals permuted (ids renumbered), node rows kept up to the individual column *)
+Theorem canonicalise_is_sorted_subset : forall t keep_unreferenced c,
+  canonicalise t keep_unreferenced = Ok c ->
+  exists t1,
+    subset t (zrange (length (t_nodes t))) keep_unreferenced false = Ok t1 /\
+    map node_core (t_nodes c) = map node_core (t_nodes t1) /\
+    t_populations c = t_populations t1 /\
+    Permutation (t_edges c) (t_edges t1) /\
+    Sorted (fun a b => edge_le (node_time (t_nodes t1)) a b = true) (t_edges c) /\
+    Permutation (t_sites c) (t_sites t1) /\ Sorted (fun a b => s_pos a <= s_pos b) (t_sites c) /\
+    Permutation (map mut_core (t_mutations c)) (map mut_core (t_mutations t1)) /\
+    Permutation (map ind_core (t_individuals c)) (map ind_core (t_individuals t1)).
+Proof. exact canonicalise_spec. Qed.
